@@ -185,9 +185,15 @@ def group_flattening(H):
     root = element(H, "svg", {}, [before, group, after])
     clamped = smax(smin(on, 1.0), 0.0) if "opacity" in gattr else 1.0
     removable_spec = Or(attrs == "none", n_children <= 1, H.close(clamped, 0.0), H.close(clamped, 1.0))
-    got = H.call(_is_removable_group, group)
+    got, e = H.catch(_is_removable_group, group)
+    H.prove(e is None, "group.no_exception_on_any_child_mix", detail=repr(e))
+    if e is not None:
+        return
     H.prove(H.close(got, removable_spec) if H.mode == "sym" else bool(got) == bool(removable_spec), "group.removable_iff_no_attrs_or_at_most_one_child_or_opacity_0_or_1")
-    removed = H.call(_try_remove_group, group)
+    removed, e = H.catch(_try_remove_group, group)
+    H.prove(e is None, "group.no_exception_on_any_child_mix", detail=repr(e))
+    if e is not None:
+        return
     H.prove(H.close(removed, removable_spec) if H.mode == "sym" else bool(removed) == bool(removable_spec), "group.try_remove_reports_the_same_verdict")
     now = list(root)
     if H.truth(removed):
